@@ -114,7 +114,7 @@ func genC10Big(w *out.W, tier string) []job {
 						w.NonTrivial(fmt.Sprintf("%s|%s|%s|%d", label, m, p, k))
 					}
 					v0 := w.Viol
-					oracleC10(w, id, label, files, m, p, k, res)
+					oracleC10(w, id, label, files, m, p, k, res, inFlight(ref[0].Points, p, k))
 					// the engine side of every statement (trigger rows in tables that existed before)
 					// follows the journal exactly, and the file is structurally sound
 					for si, o := range res {
